@@ -31,5 +31,19 @@ def main():
         cls = "; ".join(res[p][len("CAUGHT "):].split(", ")[0] for p in caught)[:150]
         print("| %s | %s | %s | %s | %s |" % (key, meta["needs_to_manifest"][:230].replace("|", "/"), ", ".join(caught) or "-", ", ".join(missed) or "-", cls))
 
+def update():
+    """splice the tables into DESIGN.md between the TABLES markers"""
+    import io, contextlib
+    buf = io.StringIO()
+    with contextlib.redirect_stdout(buf):
+        main()
+    d = os.path.join(V, "DESIGN.md")
+    t = open(d).read()
+    a, b = "<!-- BEGIN TABLES (tools/design_tables.py --update) -->", "<!-- END TABLES -->"
+    i, j = t.index(a) + len(a), t.index(b)
+    open(d, "w").write(t[:i] + "\n\n" + buf.getvalue() + "\n" + t[j:])
+
+
 if __name__ == "__main__":
-    main()
+    import sys
+    update() if "--update" in sys.argv else main()
